@@ -570,6 +570,66 @@ func runC18(c *mc.Ctx) {
 			full := bytes.Repeat([]byte{0x55}, L)
 			xs = append(xs, c18Case{XOuts: []c18XOut{{7, mc.Hex(full)}, {7, mc.Hex(full[:L-1])}}}, c18Case{XOuts: []c18XOut{{7, mc.Hex(full[:L-1])}, {7, mc.Hex(full)}}})
 		}
+		// longer scripts differing at ONE position only (a comparator that looks at a prefix, or in words,
+		// agrees with the byte-wise one on every short script)
+		for _, L := range []int{33, 34, 64, 65, 66, 128, 129, 130, 256, 257, 300} {
+			for pos := 0; pos < L; pos++ {
+				a, b := c18Pattern(L), c18Pattern(L)
+				b[pos] ^= 0x01
+				if bytes.Compare(a, b) > 0 {
+					a, b = b, a
+				}
+				xs = append(xs, c18Case{XOuts: []c18XOut{{7, mc.Hex(b)}, {7, mc.Hex(a)}}}, c18Case{XOuts: []c18XOut{{7, mc.Hex(a)}, {7, mc.Hex(b)}}})
+			}
+		}
+		// TWO positions, crossing: a = ..2..1.., b = ..1..2.. (every pair of byte positions of the txid, of
+		// the index, of the amount, and of a 40-byte script; chosen distances in a 100-byte script).  A
+		// comparator that weighs one stretch of the key in the wrong byte order decides by the wrong one
+		// of the two positions; pairs differing in one position cannot show that.
+		{
+			cross := func(n, i, j int, fill byte) ([]byte, []byte) {
+				a, b := bytes.Repeat([]byte{fill}, n), bytes.Repeat([]byte{fill}, n)
+				a[i], a[j] = 2, 1
+				b[i], b[j] = 1, 2
+				return a, b
+			}
+			for i := 0; i < 32; i++ {
+				for j := i + 1; j < 32; j++ {
+					a, b := cross(32, i, j, 0x55)
+					A, B := c18XIn{mc.Hex(a), 1}, c18XIn{mc.Hex(b), 1}
+					xs = append(xs, c18Case{XIns: []c18XIn{A, B}}, c18Case{XIns: []c18XIn{B, A}})
+				}
+			}
+			h := mc.Hex(bytes.Repeat([]byte{0x33}, 32))
+			for i := 0; i < 4; i++ {
+				for j := i + 1; j < 4; j++ {
+					a, b := cross(4, i, j, 0)
+					ia, ib := binary.LittleEndian.Uint32(a), binary.LittleEndian.Uint32(b)
+					xs = append(xs, c18Case{XIns: []c18XIn{{h, ia}, {h, ib}}}, c18Case{XIns: []c18XIn{{h, ib}, {h, ia}}})
+				}
+			}
+			for i := 0; i < 8; i++ {
+				for j := i + 1; j < 8; j++ {
+					a, b := cross(8, i, j, 0)
+					va, vb := int64(binary.LittleEndian.Uint64(a)), int64(binary.LittleEndian.Uint64(b))
+					xs = append(xs, c18Case{XOuts: []c18XOut{{va, "51"}, {vb, "51"}}}, c18Case{XOuts: []c18XOut{{vb, "51"}, {va, "51"}}})
+				}
+			}
+			for i := 0; i < 40; i++ {
+				for j := i + 1; j < 40; j++ {
+					a, b := cross(40, i, j, 0x55)
+					xs = append(xs, c18Case{XOuts: []c18XOut{{7, mc.Hex(a)}, {7, mc.Hex(b)}}}, c18Case{XOuts: []c18XOut{{7, mc.Hex(b)}, {7, mc.Hex(a)}}})
+				}
+			}
+			for i := 0; i < 100; i++ {
+				for _, d := range []int{1, 7, 8, 9, 31, 32, 33, 63, 64} {
+					if i+d < 100 {
+						a, b := cross(100, i, i+d, 0x55)
+						xs = append(xs, c18Case{XOuts: []c18XOut{{7, mc.Hex(a)}, {7, mc.Hex(b)}}}, c18Case{XOuts: []c18XOut{{7, mc.Hex(b)}, {7, mc.Hex(a)}}})
+					}
+				}
+			}
+		}
 		// very large transactions (a different code path may be taken above some size): n inputs spread
 		// over two txids with indexes 0..n/2 (so indexes >= 256 and >= 65536 share a txid), n outputs
 		// with amounts and scripts in a deterministic shuffled order
@@ -615,7 +675,7 @@ func runC18(c *mc.Ctx) {
 				c18Case{XIns: []c18XIn{{hB, 1}, {hA, 0}}, XOuts: []c18XOut{{1, "51"}}, SigLens: []int{n, 0}},
 				c18Case{XIns: []c18XIn{{hA, 0}, {hB, 1}}, XOuts: []c18XOut{{1, ""}, {2, ""}}, SigLens: []int{n, n + 1}, ScriptLens: []int{n, n}})
 		}
-		c.Space("single-position differences (txid byte, index bit, amount bit, script byte, script prefix), large transactions, long scripts", int64(len(xs)))
+		c.Space("single-position differences (txid byte, index bit, amount bit, script byte up to 300-byte scripts, script prefix), two-position crossing differences (every pair of byte positions of txid, index, amount, 40-byte script), large transactions, long scripts", int64(len(xs)))
 		c.ParFor(int64(len(xs)), func(w *mc.W, i int64) {
 			w.State()
 			c18Eval(w, xs[i])
